@@ -30,23 +30,20 @@ Fixpoint set_nth {A} (l : list A) (i : nat) (x : A) : list A :=
   end.
 
 (* Start: for every i: running = false; fvss[i].Start(seed).  For i <> myIndex the call only
-   sets the shared flag; for i = myIndex it runs generateShares. *)
+   sets the shared flag; for i = myIndex it runs generateShares and, if that fails, returns
+   from inside the loop with the shared flag false. *)
 Definition joint_start (s : jstate) (sd : seed) : jstate * result * list event :=
   if j_jrun s then (s, RStateErr, [])
   else
-    match n with
-    | O => (mkJ (j_run s) true (j_insts s), ROk, [])
-    | _ =>
-      match nth_error (j_insts s) my with
-      | None => (s, RPanic, [])
-      | Some q =>
-          let '(run', q', res, ev) := q_start cf my false q sd in
-          let insts := set_nth (j_insts s) my q' in
-          match res with
-          | ROk => (mkJ true true insts, ROk, ev)
-          | _ => (mkJ run' false insts, res, ev)       (* returns inside the loop at i = myIndex *)
-          end
-      end
+    match nth_error (j_insts s) my with
+    | None => (s, RPanic, [])
+    | Some q =>
+        let '(run', q', res, ev) := q_start cf my false q sd in
+        let insts := set_nth (j_insts s) my q' in
+        match res with
+        | ROk => (mkJ true true insts, ROk, ev)
+        | _ => (mkJ false false insts, res, ev)
+        end
     end.
 
 (* a loop `for i { err := fvss[i].f(...); if err != nil { return err } }` over the instances,
